@@ -229,7 +229,7 @@ def c16(ctx):
     # terminal state read: the four own / partner presence combinations; axle constructor sizes 0..8
     jobs = [("term2", p_devices.dev_cfg("matchdata", [], 1, nt=2), 1, None),
             ("axles", p_devices.dev_cfg("single", ["axlebig"], 2), 4, None)]
-    p_devices.run_devices(ctx, jobs, 0, observe="all", only_if=memory_symptom)
+    p_devices.run_devices(ctx, jobs, 0, observe="all", only_if=memory_symptom, extra_args=["--probe-bounds"])
     # (b) lifetimes
     lifetimes_part(ctx, 3 if q else 4)
     # a Reference must not outlive its target either: the handle behaviours of Reference.tla (clone / to_dyn / drop), drop counter inspected
